@@ -217,3 +217,9 @@ func (s *StrV) Concrete() (string, bool) {
 	}
 	return string(bs), true
 }
+
+// ChanV: minimal buffered channel (sends only; receivers are not modelled)
+type ChanV struct {
+	cap int
+	buf []Value
+}
